@@ -35,6 +35,20 @@ class Mask(Stub):
     def __bool__(self):
         raise Unsupported("truth value of a boolean series")
 
+    def astype(self, t):
+        if t in (float, "float", "float64"):
+            return Ser(1.0 if self.b else 0.0)
+        if t in (int, "int", "int64"):
+            return Ser(1 if self.b else 0)
+        if t in (bool, "bool"):
+            return Mask(self.b)
+        raise Unsupported("mask.astype() other than float / int / bool")
+
+    def __mul__(self, o):
+        return self.astype(float) * o
+
+    __rmul__ = __mul__
+
     def __repr__(self):
         return f"Mask({self.b})"
 
@@ -190,6 +204,34 @@ class Ser(Stub):
             raise Unsupported("fillna() other than fillna(<number>)")
         return Ser(value if _isnan(self.v) else self.v)
 
+    def isin(self, values):
+        if self.v is ABSENT:
+            raise Unsupported("isin on a filtered series")
+        return Mask(self.v in list(values))
+
+    def map(self, f, **k):
+        """Series.map / Index.map with a function or a dict: applied to the row's value; a boolean result is a mask."""
+        if k or self.v is ABSENT:
+            raise Unsupported("map() form not modelled")
+        if isinstance(f, dict):
+            r = f.get(self.v, math.nan)
+        elif isinstance(f, Stub) and hasattr(f, "_abs_call"):
+            r = f._abs_call(self.v)
+        elif callable(f):
+            r = f(self.v)
+        else:
+            raise Unsupported("map() with something that is neither a function nor a dict")
+        if isinstance(r, bool):
+            return Mask(r)
+        if _num(r):
+            return Ser(r)
+        raise Unsupported("map() whose function does not give a number or a truth value")
+
+    apply = map
+
+    def to_frame(self, name="value"):
+        return RowFrame({name: self.v if self.v is not ABSENT else math.nan}, self.v is not ABSENT)
+
     def abs(self): return Ser(self.v if self.v is ABSENT else abs(self.v))
     def copy(self, deep=True): return Ser(self.v)
     def astype(self, t): return Ser(self.v) if t in (float, "float", "float64") else (_ for _ in ()).throw(Unsupported("astype() other than float"))
@@ -249,10 +291,13 @@ class PDRow(Stub):
         return Ser(data if index.present else ABSENT)
 
     @staticmethod
-    def DataFrame(data=None, **k):
+    def DataFrame(data=None, index=None, columns=None, **k):
         if k or not isinstance(data, dict):
-            raise Unsupported("pd.DataFrame other than DataFrame({name: series})")
-        return data
+            raise Unsupported("pd.DataFrame other than DataFrame({name: series}[, index=..., columns=[...]])")
+        if columns is not None:
+            cols = list(columns)
+            data = {c: data.get(c, Ser(math.nan)) for c in cols}   # `columns` selects and orders; a name the dict lacks is an all-NaN column
+        return RowTable(data, index)
 
     @staticmethod
     def concat(objs, axis=0, **k):
@@ -381,3 +426,28 @@ class _RowLoc(Stub):
             self._fr._cols[k[1]] = Ser(v)
         else:
             raise Unsupported("frame.loc[mask, column] = <neither a series nor a number>")
+
+
+class RowTable(dict):
+    """The frame pd.DataFrame({name: series}, index=..., columns=[...]) builds, under the one-row abstraction: an ordered dict of the
+    row's values (it *is* a dict, so rules written for DataFrame(dict) keep working) that remembers the index it was given."""
+
+    def __init__(self, data, index=None):
+        super().__init__(data)
+        self.index_given = index
+
+    def sum(self, axis=0, min_count=0, skipna=True, **k):
+        """Row-wise sum over the columns (axis=1): NaN and absent cells are skipped; fewer than min_count values present gives NaN."""
+        if k or axis not in (1, "columns") or skipna is not True:
+            raise Unsupported("frame.sum() other than sum(axis=1[, min_count=n])")
+        vals = []
+        for v in self.values():
+            x = v.v if isinstance(v, Ser) else v
+            if x is ABSENT or _isnan(x):
+                continue
+            if not _num(x):
+                raise Unsupported("frame.sum() over a non-numeric column")
+            vals.append(x)
+        if len(vals) < min_count:
+            return Ser(math.nan)
+        return Ser(float(sum(vals)))
